@@ -4,7 +4,10 @@ Correspondence areas (model vs. real code, all 16 configurations x {f64, f128}):
   val    String / StringWithSign / Comma / CommaWithSign of a raw value, FromString of each rendering, and (on the
          implementation side only, token `lib-ok`) every library round trip: MarshalText/UnmarshalText, encoding/json
          (bare, quoted, inside struct/map/slice), yaml.v3 (bare, quoted, inside struct/map/slice), FromStringForced
-  parse  FromString and UnmarshalText of literals, near misses and arbitrary byte strings (value / err / exp)
+  parse  FromString and UnmarshalText of literals, near misses, arbitrary byte strings and exponent literals; the model
+         is `fromStrX64/128` (Model/FixedTextExp.lean): value / err / impl (f64: float -> int64 conversion outside int64,
+         implementation-defined in Go, decided by the harness with strconv + the hardware product); underscore
+         separators and hexadecimal floats (the other grammars of ParseFloat a text with an e can reach) are modelled too
   as     As / CheckedAs for the eleven integer target types
   txtfn  txt.Unquote, txt.CommaFromStringNum on arbitrary bytes
   fltm   the float branch at the executed Lean instance (Model/FixedTextFloat.lean over GoSem.F64): `cfm` = As / CheckedAs to
@@ -49,6 +52,26 @@ def _oracle(ctx, area, n, label):
                 ctx.samples.append({"area": area, "op": l[:200], "oracle": o[:200]})
 
 
+def _parse_tag(l, o):
+    """class of the input text x outcome of the model, printed into the evidence (generator distribution)"""
+    import re
+    try:
+        b = bytes.fromhex(l.split(" ")[3])
+    except Exception:
+        b = b""
+    t = b.replace(b",", b"")
+    if b"e" in t or b"E" in t:
+        body = t.lstrip(b"+-")
+        cls = "hexfloat" if body[:2].lower() == b"0x" else ("underscore" if b"_" in t else "exponent")
+    elif b[:1] == b'"':
+        cls = "quoted"
+    elif re.fullmatch(rb"[+-]?[0-9,]*(\.[0-9,]*)?", b) and re.search(rb"[0-9]", b):
+        cls = "plain-literal"
+    else:
+        cls = "other"
+    return "parse:%s:%s" % (cls, o.split(" ", 1)[0].split(":", 1)[0])
+
+
 def run(ctx):
     ctx.modelled += [
         "strings are byte lists; strconv.ParseInt(s,10,64) and big.Int.SetString(s,10) are modelled by their grammar "
@@ -57,8 +80,13 @@ def run(ctx):
         "wrap-around mod 2^128, saturation) — their own verification is C01/C02",
         "encoding/json and yaml.v3 are outside the model: the harness feeds every rendering through them and reports "
         "any non-identity as `lib-FAIL`",
-        "exponent literals (strconv.ParseFloat detour, Appendix B: not plain literals) are outside the model: "
-        "implementation-side oracle `exp`",
+        "exponent literals (strconv.ParseFloat detour, Appendix B: not plain literals) are modelled "
+        "(Model/FixedTextExp.lean, run on every `parse` line): strconv.ParseFloat(t,64) on the decimal exponent grammar "
+        "= correctly rounded conversion GoSem.F64.ofRat of the denoted rational (ErrRange on +-Inf, exponent accumulator "
+        "saturating as in strconv.readFloat; underscores skipped and judged by a transcription of strconv.underscoreOK; "
+        "hexadecimal floats 0x..p.. rounded once), then the C03 model of From[T](float64); no text is left outside the "
+        "model; the implementation-side oracle `exp` (From(ParseFloat) recomputed with the stdlib) stays as a second "
+        "opinion",
         "float targets of As/CheckedAs: modelled at the instance GoSem.F64 (Model/FixedTextFloat.lean) with "
         "strconv.ParseFloat = nearest float to the denoted rational (GoSem.F64.ofRat / Fixed.round32) and "
         "strconv.FormatFloat(-1) = first text by digit count that parses back; both definitions are compared with the "
@@ -76,18 +104,17 @@ def run(ctx):
     ctx.lean(props=["Props.C04"], drivers=["drv_c04"])
     ctx.harness("./cmd/c04")
     thm = "C04.%s (model = spec); impl != model on this input"
-    ctx.diff(area="val", driver="drv_c04", n={"quick": 48000, "thorough": 3000000},
+    ctx.diff(area="val", driver="drv_c04", n={"quick": 36000, "thorough": 3000000}, shards=None if ctx.tier == "thorough" else 8,
              theorem=thm % "toString_shape / toString_exact / toString_canonical / roundtrip_configs64 / roundtrip_configs128 / comma_shape / withSign_forms")
     ctx.diff(area="parse", driver="drv_c04", n={"quick": 120000, "thorough": 6000000},
-             trivial=lambda l, o: o.startswith("exp"),
-             tagger=lambda l, o: "parse:" + o.split(" ", 1)[0].split(":", 1)[0],
-             theorem=thm % "fromString_literal64 / fromString_literal128 / fromString_total64 / fromString_total128")
+             tagger=_parse_tag,
+             theorem=thm % "fromString_literal_all64 / fromString_literal_all128 / fromString_accepts64 / fromString_accepts128 / fromStringX_refines / fromStringX_total / fromString_never_panics / exp_literal_bound64 / exp_literal_bound128 / exp_literal_zero")
     ctx.diff(area="as", driver="drv_c04", n={"quick": 60000, "thorough": 3000000},
              tagger=lambda l, o: "as:" + o.split(" ")[-1].split(":", 1)[0],
              theorem=thm % "checkedAs_int_iff64 / checkedAs_int_iff128 / as_eq_checkedAs64 / as_eq_checkedAs128")
     ctx.diff(area="txtfn", driver="drv_c04", n={"quick": 30000, "thorough": 1000000},
-             theorem=thm % "unquote_quoted / unquote_bare / unquote_short / comma_only_adds_commas")
-    ctx.diff(area="fltm", driver="drv_c04", n={"quick": 40000, "thorough": 2000000},
+             theorem=thm % "unquote_quoted / unquote_bare / unquote_short / comma_only_adds_commas / comma_int")
+    ctx.diff(area="fltm", driver="drv_c04", n={"quick": 40000, "thorough": 2000000}, shards=None if ctx.tier == "thorough" else 8,
              tagger=lambda l, o: "fltm:" + l.split(" ", 1)[0] + (":" + o.split(" ")[-1].split(":", 1)[0] if l.startswith("cfm") else ""),
              theorem=thm % "checkedAs_float_go64 / checkedAs_float_go128_sound / parseFloat_toString / formatFloat_roundtrip")
     _oracle(ctx, "float", {"quick": 60000, "thorough": 3000000},
